@@ -91,6 +91,7 @@ Configs ==
     lead0 |-> << G(1, TRUE,  << N4(8, 3), N4(65536, 1), N6("::", 16, 8, 2), N6(Z6, 1, 0, 1) >>),
                  G(1, FALSE, << N4(256, 0), N6("::", 16, 65536, 0) >>) >>,
     fam   |-> << G(1, FALSE, << N4(B10, 1) >>), G(1, TRUE, << N6(P6, 0, 0, 1) >>) >>,
+    allzero |-> << G(0, TRUE, << N4(B10, 1), N6(P6, 0, 0, 1) >>), G(0, FALSE, << N4(B10 + 8, 0) >>) >>,
     mix3  |-> << G(1, FALSE, << N4(B10, 0), N4(B10 + 1, 0), N6(P6, 0, 0, 0) >>),
                  G(1, TRUE,  << N6(P6, 0, 16, 3), N4(B100, 3) >>),
                  G(2, FALSE, << N4(B10 + 8, 2), N4(B100 + 8, 1), N4(B10 + 12, 0), N6(P6, 0, 4, 2), N6(P6, 0, 64, 1) >>) >> ]
@@ -109,7 +110,9 @@ SumTo(f, k) == IF k = 0 THEN 0 ELSE f[k] + SumTo(f, k - 1)     \* f[1] + ... + f
 
 Weights(c) == [g \in 1..Len(Groups(c)) |-> Groups(c)[g].w]
 TotW(c) == SumTo(Weights(c), Len(Groups(c)))
-ASSUME \A c \in DOMAIN Configs : TotW(c) >= 1   \* an all-zero-weight configuration is outside the domain (see DESIGN 6)
+\* A configuration whose weights are all zero offers nothing to select: every version must fail with an
+\* error (weightedrand refuses it for v0/v1; the v2+ routine has to refuse it before rand.Int(_, 0)).
+NoWeight(c) == TotW(c) = 0
 
 \* ------------------------------------------------------------------ weighted choice
 \* sort.Slice on <= 12 elements is an insertion sort, i.e. stable: ascending weight, ties in configuration order
@@ -212,7 +215,8 @@ LegacyReachesRead(c, lv, g, fam, idraw) == AddrLegacy(c, lv, g, fam, idraw, 0).o
 \* the total the id is reduced by (v0: sum of sizes-1) for the group the draw w selects; the driver needs it
 \* to turn a real seed into the draw id
 RedTotal(c, lv, fam, w0) ==
-  IF lv >= 2 THEN GroupTotal(c, ChooseHkdf(c, w0), fam)
+  IF NoWeight(c) THEN 0
+  ELSE IF lv >= 2 THEN GroupTotal(c, ChooseHkdf(c, w0), fam)
   ELSE LET g == ChooseLegacy(c, w0)
            F == FIdx(c, g, fam)
        IN  IF lv = 1 THEN SumTo(Sizes(c, g, F), Len(F)) ELSE SumTo(SizesM1(c, g, F), Len(F))
@@ -233,18 +237,20 @@ NoRng == [s |-> [w |-> 0, id |-> 0, h |-> 0], p |-> 0]
 \* the function the property speaks of: the result of a selection run alone
 Serial(i) ==
   IF i.gen # "known" THEN Err("generation")
+  ELSE IF NoWeight(i.c) THEN Err("noweight")
   ELSE IF i.lv >= 2 THEN SelHkdf(i.c, i.fam, i.seed.w % TotW(i.c), i.seed.id)
   ELSE AddrLegacy(i.c, i.lv, ChooseLegacy(i.c, ValW(FreshRng(i.seed)) % TotW(i.c)), i.fam, i.seed.id,
                   ValH(FreshRng(i.seed)) % MaxSz(i.c))
 
 \* ------------------------------------------------------------------ inputs
 EnumSeeds(c, lv, fam) ==
-  IF lv >= 2
+  IF NoWeight(c) THEN {[w |-> 0, id |-> 0, h |-> 0]}
+  ELSE IF lv >= 2
   THEN {[w |-> w, id |-> id, h |-> 0] : w \in 0..(TotW(c) - 1), id \in 0..(IF MaxTotal(c, fam) = 0 THEN 0 ELSE MaxTotal(c, fam) - 1)}
   ELSE {[w |-> w, id |-> id, h |-> h] : w \in 0..(TotW(c) - 1), id \in 0..(MaxTotal(c, fam) + 2), h \in 0..(MaxSz(c) - 1)}
 \* rand.Int(reader, total) never returns id >= total of the chosen group
 ValidSeed(c, lv, fam, s) ==
-  lv >= 2 => LET t == GroupTotal(c, ChooseHkdf(c, s.w), fam) IN (s.id < t \/ (t = 0 /\ s.id = 0))
+  (lv >= 2 /\ ~NoWeight(c)) => LET t == GroupTotal(c, ChooseHkdf(c, s.w), fam) IN (s.id < t \/ (t = 0 /\ s.id = 0))
 EnumInputs ==
   UNION {UNION {UNION {
      {[c |-> c, lv |-> lv, fam |-> fam, gen |-> "known", seed |-> s] : s \in {s \in EnumSeeds(c, lv, fam) : ValidSeed(c, lv, fam, s)}}
@@ -275,13 +281,13 @@ Finish(i, r) == /\ res' = [res EXCEPT ![i] = r]
 \* unknown generation (any version) and the v2+ algorithm touch no shared state: one step
 SelectPure(i) ==
   /\ pc[i] = "start"
-  /\ inp[i].gen # "known" \/ inp[i].lv >= 2
+  /\ inp[i].gen # "known" \/ inp[i].lv >= 2 \/ NoWeight(inp[i].c)
   /\ Finish(i, Serial(inp[i]))
   /\ UNCHANGED <<inp, grp, rng, lrng>>
 
 \* compat.go getSubnetsVarint: mrand.Seed(seedInt)
 Seed1(i) ==
-  /\ pc[i] = "start" /\ inp[i].gen = "known" /\ inp[i].lv < 2
+  /\ pc[i] = "start" /\ inp[i].gen = "known" /\ inp[i].lv < 2 /\ ~NoWeight(inp[i].c)
   /\ Put(i, FreshRng(inp[i].seed))
   /\ pc' = [pc EXCEPT ![i] = "seeded1"]
   /\ UNCHANGED <<inp, grp, res, obs>>
@@ -345,8 +351,11 @@ Pure == \A i \in Procs : Done(i) => res[i] = Serial(inp[i])
 
 UnknownGenerationFails == \A i \in Procs : (Done(i) /\ inp[i].gen # "known") => ~res[i].ok
 
-\* v1 and v2+ fail only when the chosen group has no address of the family (v0 may hit its legacy bug)
-NoSpuriousError == \A i \in Procs : (Done(i) /\ ~res[i].ok /\ inp[i].gen = "known" /\ inp[i].lv >= 1) => res[i].err = "missing"
+\* v1 and v2+ fail only when the chosen group has no address of the family or nothing has weight (v0 may hit its legacy bug)
+NoSpuriousError == \A i \in Procs : (Done(i) /\ ~res[i].ok /\ inp[i].gen = "known" /\ inp[i].lv >= 1) => res[i].err \in {"missing", "noweight"}
+
+\* nothing is ever selected from a configuration without weight
+NoWeightFails == \A i \in Procs : (Done(i) /\ NoWeight(inp[i].c)) => ~res[i].ok
 
 \* a zero-weight group is never chosen
 ZeroWeightNeverChosen == \A i \in Procs : (Done(i) /\ res[i].ok) => Groups(inp[i].c)[res[i].g].w > 0
